@@ -67,6 +67,7 @@ Here is a semantic property of the library that holds on the current tree:
 
 TASK (this is NOT bug seeding): produce THREE different, independent source changes (A, B, C) to the library (files under nmea2000/ only; never edit tests/) that a maintainer could plausibly make, that visibly CHANGE the library's observable behaviour, and that nevertheless keep this property true exactly as worded, for every input, schedule and fault in its quantifier. The purpose is to find out whether an external checker of this property demands MORE than the statement says: so look for every freedom the wording leaves - things the statement does not fix, bounds it gives only as inequalities or only qualitatively ("eventually", "bounded", "at most", "growing", "some exception", "no more than once"), behaviour on inputs or in situations outside its quantifier, order or number of things it does not count, timing it does not constrain, what happens after the point where its obligations end, extra notifications/log lines/attributes/return values it does not forbid, stricter or more lenient treatment of cases it leaves open - and change the behaviour inside that freedom, as far as the wording allows, in the code the property is anchored in. Read the statement clause by clause: for each clause ask "what is the most different behaviour that still satisfies this clause?". Each change should be something a maintainer could defend as a reasonable design decision (a feature, a different policy, a tuning, a protocol nicety), not an obfuscation. Do NOT change public names users rely on (class names, connect/send/close, set_receive_callback/set_status_callback, state, decode_*/encode_* entry points, message/field attributes, constructor keyword names; new optional keywords with defaults are fine). Each change must keep the existing suite green (71 passed). If you are not sure a change keeps the property as worded, do not deliver it - pick another.
 
+@FREETAKEN@
 For each change write (1) what observable behaviour changes, (2) clause by clause, why the property as worded still holds, and a small standalone program `show_X.py` that makes the behaviour difference visible (prints it) and exits 0 on both the clean and the changed tree.
 
 Deliver, inside @DIR@/@ID@/_out/ :
@@ -99,6 +100,11 @@ def main():
         t = {"break": BREAK, "preserve": PRESERVE, "free": FREE}[mode]
         t = t.replace('@DIR@', d).replace('@ID@', p['id']).replace('@PROP@', prop).replace('@EXTRA@', extra)
         t = t.replace('@TAKEN@', "\n".join(" - " + x for x in taken.get(p['id'], [])))
+        ft = [open(f).readline().strip()[:220] for f in sorted(glob.glob('/verif/free/%s-*.md' % p['id']))]
+        t = t.replace('@FREETAKEN@', ("Others have ALREADY delivered the following changes for this property - do not repeat them or close "
+                                      "variants; use a different freedom of the wording, in a different place (constants and time limits, "
+                                      "order and number of events, what happens at the edges of the quantifier, configuration options, "
+                                      "resource policies, protocol niceties, error reporting):\n" + "\n".join(" - " + x for x in ft) + "\n") if ft else "")
         open(os.path.join(d, p['id'] + '.prompt.txt'), 'w').write(t)
     print("ok", d, mode)
 
